@@ -5,9 +5,12 @@ CONSTANTS
   Kind = "cached"
   Sizes = {1, 2, 3}
   MaxResize = 0
+  MaxFail = 1
+  KwClass <- KwClasses
   Variant = "code"
 INVARIANT BodyOnce
 INVARIANT BodyExclusive
+INVARIANT ValueFresh
 VIEW View
 CHECK_DEADLOCK FALSE
 ACTION_CONSTRAINT Dump
